@@ -68,6 +68,13 @@ class USet:
         return f"present values in [{self.lo}, {'inf' if self.hi is None else self.hi}){' incl. 0' if self.zero else ''}{f' shifted by {self.shift}' if self.shift else ''}"
 
 
+class CountsOf:
+    """how many elements carry each value of a value set (parallel to it)"""
+
+    def __init__(self, of):
+        self.of = of
+
+
 class Card:
     def __init__(self, of: USet):
         self.of = of
@@ -130,6 +137,10 @@ class EnumInterp(Interp):
     def subscript_hook(self, base, idx, node):
         if isinstance(base, Arr) and isinstance(idx, NZMask) and idx.of is base:
             return NonZeroSel(base.dt, idx.positive)
+        if isinstance(base, CountsOf) and isinstance(idx, NZMask) and idx.of is base.of:
+            return CountsOf(self.subscript_hook(base.of, idx, node))
+        if isinstance(base, CountsOf) and isinstance(idx, slice):
+            return CountsOf(self.subscript_hook(base.of, idx, node))
         if isinstance(base, USet) and isinstance(idx, NZMask) and idx.of is base:
             if base.shift != 0:
                 return USet(base.lo, base.hi, False, base.shift)
@@ -179,6 +190,9 @@ class EnumInterp(Interp):
         a = args
         if name in ("numpy.any", "numpy.all", "warnings.warn", "numpy.min", "numpy.max"):
             return Unknown(name) if name != "warnings.warn" else None
+        if name == "numpy.unique" and len(a) == 1 and set(kwargs) == {"return_counts"} and kwargs["return_counts"] is True and isinstance(a[0], Arr):
+            u = USet(DTMIN[a[0].dt], None, True)
+            return (u, CountsOf(u))
         if name == "numpy.unique" and len(a) == 1 and not kwargs:
             x = a[0]
             if isinstance(x, (Arr,)):
@@ -252,11 +266,17 @@ def check_label_enumeration(ctx: Ctx):
             seen.add(g.qual)
             # what the function returns decides how it is read: a collection of labels or their number
             targets.append((g, kind or "set-or-count"))
+    flagged = []
     for f, kind in targets:
+        # an enumerator with an option to hand back the sizes too is judged with the option on as well
+        for prm in f.call_params[1:]:
+            if isinstance(prm.default, ast.Constant) and prm.default.value is False and "count" in prm.name.lower():
+                flagged.append((f, kind, prm.name))
+    for f, kind, flag in [(f, k, None) for f, k in targets] + flagged:
         p0 = f.call_params[0].name
         for dt, (sym, dtmax) in DTYPES.items():
-            def make(prefix, dt=dt):
-                return EnumInterp(prog, f, {p0: Arr(dt)}, prefix=prefix)
+            def make(prefix, dt=dt, flag=flag):
+                return EnumInterp(prog, f, {p0: Arr(dt), **({flag: True} if flag else {})}, prefix=prefix)
 
             try:
                 outs = enumerate_paths(make, max_paths=32)
@@ -265,7 +285,12 @@ def check_label_enumeration(ctx: Ctx):
                 continue
             for out in outs:
                 dtxt = "; ".join(f"{norm(nd) if isinstance(nd, ast.AST) else '?'}={d}" for nd, v, d in out.decisions)
-                construct = f"{f.qual}:dtype={dt}" + (f"[{dtxt}]" if dtxt else "")
+                construct = f"{f.qual}:dtype={dt}" + (f",{flag}=True" if flag else "") + (f"[{dtxt}]" if dtxt else "")
+                if flag and out.kind == "return" and isinstance(out.value, tuple) and len(out.value) == 2 and isinstance(out.value[1], CountsOf) and out.value[1].of is not None:
+                    # (values, counts): the counts must belong to exactly the values handed back
+                    same = isinstance(out.value[0], USet) and repr(out.value[0]) == repr(out.value[1].of) and getattr(out.value[0], "dropped_smallest", False) == getattr(out.value[1].of, "dropped_smallest", False)
+                    ctx.decide("R09.6", f, out.node, construct + ":counts", "the sizes handed back belong to exactly the labels handed back", same, {"labels": repr(out.value[0]), "counts_of": repr(out.value[1].of)})
+                    out = type(out)(out.kind, out.value[0], out.node, out.decisions, out.env, out.exc)
                 if out.kind != "return":
                     ctx.undecided("R09.6", f, out.node, construct, f"label enumeration ends with {out.kind} {out.exc or ''}")
                     continue
